@@ -123,7 +123,8 @@ nni_chunk_grow(nni_chunk *ch, size_t newsz, size_t headwanted)
 		if (headwanted < headroom) {
 			headwanted = headroom; // Never shrink this.
 		}
-		if (((newsz + headwanted) <= ch->ch_cap) &&
+		if ((newsz <= ch->ch_cap) &&
+		    (headwanted <= (ch->ch_cap - newsz)) &&
 		    (headwanted <= headroom)) {
 			// We have enough space at the ends already.
 			return (0);
